@@ -52,7 +52,12 @@ def run_sequence(R, B, fields, W):
             return
         if not R.check([x.hash for x in b.refs] == exp_refs, f'refs-{key}', f'references after storing {f.kind} differ from expected', dict(W, field=f.desc())):
             return
-    cell = b.end_cell()
+    st, cell = mon.call(b.end_cell)
+    if st == 'exc':
+        R.exc(cell)
+        R.violation(f'end_cell-raises-{len(exp_bits)}bits-{len(exp_refs)}refs' if len(exp_bits) in (0, 1023) else 'end_cell-raises',
+                    f'end_cell() raised {cell!r} after a valid sequence of stores totalling {len(exp_bits)} bits / {len(exp_refs)} refs', W)
+        return
     R.check(cell.bits.to01() == exp_bits and [x.hash for x in cell.refs] == exp_refs, 'end_cell-content', 'end_cell() content differs from what was stored', W)
     if len(exp_bits) == 1023:
         R.count('sequences_exactly_1023_bits')
